@@ -1421,6 +1421,8 @@ class Path:
         if isinstance(v, ModV):
             mi = self.index.module(v.name)
             if mi is None:
+                if v.name == 'math' and attr in ('inf', 'nan', 'pi', 'e', 'tau'):
+                    return getattr(math, attr)
                 return ExtV(f'{v.name}.{attr}')
             return self.global_value(v.name, attr)
         if isinstance(v, EnumV):
